@@ -249,6 +249,9 @@ func H_C01(v *zzverif.T) {
 		}
 		for _, d := range caller {
 			in[d.name] = d.zzTensor()
+			if v.Has("lazyT") && v.CStr("lazyT") == d.name {
+				in[d.name] = d.zzLazyT() // handed over lazily transposed (x.T() without Transpose())
+			}
 			refEnv[d.name] = d.zzTensor() // a caller tensor overrides the initializer default
 		}
 		var out Tensors
